@@ -5,6 +5,9 @@
 -/
 import Driver.C05
 import Driver.C01
+import Driver.C12
+import Driver.C18
+import Driver.C19
 
 open Driver
 
@@ -12,6 +15,9 @@ def dispatch (prop : String) (toks : List String) : String :=
   match prop with
   | "C05" => Driver.C05.handle toks
   | "C01" => Driver.C01.handle toks
+  | "C12" => Driver.C12.handle toks
+  | "C18" => Driver.C18.handle toks
+  | "C19" => Driver.C19.handle toks
   | _ => "bad-prop"
 
 partial def loop (hin hout : IO.FS.Stream) : IO Unit := do
